@@ -100,6 +100,6 @@ pub fn decode_hop(u: &mut Unstructured<'_>, addrs: &[u16]) -> HOp {
             complete: u.arbitrary().unwrap_or(true),
         },
         10 => HOp::Flip { addr: pick(u, addrs), steps: u.int_in_range(1..=13u8).unwrap_or(1) },
-        _ => HOp::Repeat { msg: decode_msg(u, addrs), n: pick(u, &[2u32, 3, 7, 40, 65535, 65536, 65537]) },
+        _ => HOp::Repeat { msg: decode_msg(u, addrs), n: pick(u, &[2u32, 3, 5, 7, 16, 40, 200, 65536]) },
     }
 }
